@@ -43,10 +43,10 @@ TRUSTED = ["Lean Float arithmetic = Rust f64 arithmetic (measured)", "Iterator::
 ASSUMPTIONS = ["lags fit in i32 and |k| != i32::MIN; orders p with p^2 < 2^24 (is_square's f32 root)"]
 
 U = 2.0 ** -53
-C_AC = 16.0       # acovf/acf: multiple of the a-priori rounding bound; max observed ratio (seeds 1..5 quick, thorough) 0.12
+C_AC = 32.0       # acovf/acf: multiple of the a-priori rounding bound; max observed ratio (seeds 1..5 quick, thorough) 0.16
 C_MEAN = 32.0     # intercept; max observed ratio 0.21
 C_YW = 200.0      # Yule-Walker residual; max observed ratio 0.035
-C_PRED = 128.0    # forecasts vs exact recursion; max observed ratio 0.76
+C_PRED = 128.0    # forecasts vs exact recursion; max observed ratio 0.86
 C_PAIR = 200.0    # shift pairs; max observed ratios 0.003 (coefficients), 0.005 (forecasts)
 SKIP_AT = 1e-2
 
